@@ -56,6 +56,23 @@ var hostilePool = []interface{}{
 	map[int64]struct{}{1: {}}, map[string]struct{}{"a": {}},
 	nil, 3.5, int(3), int8(1), uint64(1 << 63), []interface{}{1}, struct{}{}, eval.DNE,
 	int64(-9223372036854775808), int64(9223372036854775807),
+	bigInts(120), bigStrs(120), bigInts(100), []int64{}, []string{}, // beyond every small-list special case, next to empty ones
+}
+
+func bigInts(n int) []int64 {
+	out := make([]int64, n)
+	for i := range out {
+		out[i] = int64((i*7919 + 13) % 1009)
+	}
+	return out
+}
+
+func bigStrs(n int) []string {
+	out := make([]string, n)
+	for i := range out {
+		out[i] = elemStr(int64((i*7919 + 13) % 1009))
+	}
+	return out
 }
 
 type hostileFetcher struct {
@@ -64,9 +81,22 @@ type hostileFetcher struct {
 }
 
 func (h hostileFetcher) val(s string) interface{} {
-	return hostilePool[(int(hash64(s)%1000003)+h.seed)%len(hostilePool)]
+	i := (int(hash64(s)%1000003) + h.seed) % len(hostilePool)
+	if i < 0 {
+		i += len(hostilePool)
+	}
+	return hostilePool[i]
 }
 func (h hostileFetcher) Get(_ eval.VariableKey, s string) (eval.Value, error) {
+	if h.seed <= -1000 { // explicit pair: x and y take the i-th and j-th hostile value
+		k := -h.seed - 1000
+		switch s {
+		case "x":
+			return hostilePool[(k/100)%len(hostilePool)], nil
+		case "y":
+			return hostilePool[(k%100)%len(hostilePool)], nil
+		}
+	}
 	switch h.seed { // uniform bindings: nothing short-circuits an and (-1) / an or (-2); every integer is 1 (-3)
 	case -1:
 		return true, nil
@@ -434,6 +464,12 @@ func sweepC06(tier string, shard, shards int, emit func(C06Case)) {
 				emit(C06Case{Src: src, Mask: mask, Undef: true, Binds: []int{-1, -2, 7}, NoDump: true, Origin: "sweep-wide"})
 				emit(C06Case{Src: src, Mask: mask, Undef: true, Events: 1, Binds: []int{-1, -2}, NoDump: true, Origin: "sweep-wide"})
 			}
+		}
+	}
+	// list operators over every pair of hostile values: binding seed s gives x the s-th value
+	for i := range hostilePool {
+		for j := range hostilePool {
+			emit(C06Case{Src: "(or (overlap x y) (in x y) (= x y) (!= y x))", Mask: (i + j) % 16, Undef: true, Binds: []int{-1000 - i*100 - j}, Origin: "sweep-list-pairs"})
 		}
 	}
 	for _, op := range []string{"+", "*", "=", "c_sum"} {
